@@ -63,10 +63,31 @@ def norm_hops(hops):
     return [(p, l if isinstance(l, int) else bytes(l)) for p, l in hops]
 
 
+_PINNED = None
+
+
+def pinned():
+    global _PINNED
+    if _PINNED is None:
+        import json
+        import os
+        _PINNED = json.load(open(os.path.join(os.path.dirname(os.path.dirname(os.path.abspath(__file__))), "pinned_tables.json")))
+    return _PINNED
+
+
+def name_of(table, lib_table, code):
+    """ids the pinned tree knows keep their pinned name; other ids: whatever the library's table says,
+    'UNKNOWN' when it has none (the statement's fallback)"""
+    pin = pinned()[table].get(str(code))
+    if pin is not None:
+        return pin
+    return lib_table.get(code, "UNKNOWN")
+
+
 def expected_identity(idn, lib):
     from pycomm3.cip.status_info import VENDORS, PRODUCT_TYPES
-    return {"vendor": VENDORS.get(idn["vendor"], "UNKNOWN"),
-            "product_type": PRODUCT_TYPES.get(idn["product_type"], "UNKNOWN"),
+    return {"vendor": name_of("vendors", VENDORS, idn["vendor"]),
+            "product_type": name_of("product_types", PRODUCT_TYPES, idn["product_type"]),
             "product_code": idn["product_code"],
             "revision": {"major": idn["rev_major"], "minor": idn["rev_minor"]},
             "status": struct.pack("<H", idn["status"]),
@@ -168,9 +189,10 @@ def run(sc):
                     exp_hops = norm_hops([(p if isinstance(p, int) else {"bp": 1, "backplane": 1, "enet": 2}[p],
                                            (int(l) if isinstance(l, str) and l.isdigit() else (l.encode() if isinstance(l, str) else l)))
                                           for p, l in route["segs"]])
+                    rarg = [PortSegment(p, l) for p, l in route["segs"]]
                 elif isinstance(route, dict) and "hex" in route:
                     rarg = bytes.fromhex(route["hex"])
-                    exp_hops = norm_hops(route["hops"])
+                    exp_hops = norm_hops([(p, val_of(l)) for p, l in route["hops"]])
                 elif isinstance(route, str):
                     rarg = route
                     _, exp_hops = route_hops_of_path("x/" + route, False)
@@ -451,8 +473,8 @@ def ref_decode(dt, b):
 # ---------------------------------------------------------------------------
 def rand_identity(r):
     from pycomm3.cip.status_info import VENDORS, PRODUCT_TYPES
-    known_v = sorted(k for k in VENDORS if isinstance(k, int))
-    known_t = sorted(k for k in PRODUCT_TYPES if isinstance(k, int))
+    known_v = sorted(int(k) for k in pinned()["vendors"])
+    known_t = sorted(int(k) for k in pinned()["product_types"])
     v = r.choice(known_v) if r.random() < 0.5 else r.choice((0, 65535, r.randrange(65536)))
     t = r.choice(known_t) if r.random() < 0.5 else r.choice((0, 65535, r.randrange(65536)))
     n = r.choice((0, 1, 5, 20, 32, 254, 255, r.randrange(256)))
@@ -490,7 +512,7 @@ def gen(seed, tier, prop="C14"):
     harness.lib()
     from .. import worldgen
     dcls = r.choice(("CIPDriver", "LogixDriver")) if prop != "C16" else r.choice(("CIPDriver", "LogixDriver", "LogixDriver"))
-    layout = r.choice(("clx", "clx", "compact"))
+    layout = r.choice(("clx", "clx", "compact", "multihop"))
     if dcls == "CIPDriver" and r.random() < 0.3:
         layout = "cip"
     project = worldgen.light_project(r) if layout != "cip" else None
@@ -513,6 +535,22 @@ def gen(seed, tier, prop="C14"):
             path = r.choice((f"10.0.0.1/{cslot}", f"10.0.0.1/bp/{cslot}", f"10.0.0.1/backplane/{cslot}", f"10.0.0.1,1,{cslot}"))
         else:
             path = r.choice((f"10.0.0.1/bp/{cslot}", f"10.0.0.1/1/{cslot}", f"10.0.0.1\\backplane\\{cslot}"))
+    elif layout == "multihop":
+        from .logix import HOP_IPS
+        n1 = r.choice((4, 7))
+        slots = r.choice((4, 7, 13))
+        e1 = r.randrange(n1)
+        hop = r.choice([x for x in range(n1) if x != e1])
+        eb = r.randrange(slots)
+        cslot = r.choice([x for x in range(slots) if x != eb])
+        hip = r.choice(HOP_IPS)
+        world.update(slots=n1, enet_slot=e1, hop_slot=hop, hop_ip=hip, remote_slots=slots, remote_enet_slot=eb, slot=cslot,
+                     modules={})
+        for s_ in range(slots):
+            if s_ not in (cslot, eb) and r.random() < 0.6:
+                world["modules"][str(s_)] = rand_identity(r)
+        world["_prefix"] = f"bp/{hop}/enet/{hip}"
+        path = f"10.0.0.1/{r.choice(('bp', 'backplane', '1'))}/{hop}/{r.choice(('enet', '2'))}/{hip}/{r.choice(('bp', '1'))}/{cslot}"
     elif layout == "compact":
         path = r.choice(("10.0.0.1", "10.0.0.1/0")) if dcls == "LogixDriver" else "10.0.0.1/bp/0"
     sc = {"engine": "generic", "seed": seed, "prop": prop, "world": world,
@@ -545,12 +583,13 @@ def gen(seed, tier, prop="C14"):
             if c < 0.3:
                 lcls = r.choice(("CIPDriver", "LogixDriver"))
                 # a path in the grammar of the class that is asked (the slot shortcut is Logix-only)
-                lpath = path if lcls == dcls else ("10.0.0.1" if layout != "clx" else f"10.0.0.1/bp/{world['slot']}")
+                lpath = path if (lcls == dcls or layout == "multihop") else \
+                    ("10.0.0.1" if layout != "clx" else f"10.0.0.1/bp/{world['slot']}")
                 if lcls == "LogixDriver" and layout == "cip":
                     lcls = "CIPDriver"
                     lpath = path
                 ops.append({"id": oid, "kind": "list_identity", "cls": lcls, "path": lpath, "host": "10.0.0.1"})
-            elif c < 0.55 and layout in ("clx", "compact"):
+            elif c < 0.55 and layout in ("clx", "compact", "multihop"):
                 ops.append({"id": oid, "kind": "get_module_info", "slot": r.randrange(slots)})
             elif c < 0.75 and dcls == "LogixDriver":
                 ops.append({"id": oid, "kind": "get_plc_info"})
@@ -595,19 +634,30 @@ def gen(seed, tier, prop="C14"):
             route = r.choice((True, True, False, "bp/1", {"segs": [["bp", 2]]}))
         else:
             c2 = r.random()
-            if layout == "clx" and c2 < 0.6:
+            if layout in ("clx", "multihop") and c2 < 0.6:
                 s = r.choice([x for x in range(slots)])
-                if s == world["enet_slot"] or (str(s) not in world["modules"] and s != world["slot"]):
+                eslot = world["enet_slot"] if layout == "clx" else world["remote_enet_slot"]
+                if s == eslot or (str(s) not in world["modules"] and s != world["slot"]):
                     s = world["slot"]
                 where = {"slot": s} if s != world["slot"] else "target"
-                hops = [[1, s]]
                 form = r.random()
-                if form < 0.4:
+                if layout == "multihop":
+                    hip = world["hop_ip"]
+                    hops = [[1, world["hop_slot"]], [2, hip], [1, s]]
+                    if form < 0.4:
+                        route = f"{world['_prefix']}/{r.choice(('bp', 'backplane', '1'))}/{s}"
+                    elif form < 0.7:
+                        route = {"segs": [["bp", world["hop_slot"]], [r.choice(("enet", 2)), hip], ["backplane", r.choice((s, str(s)))]]}
+                    else:
+                        route = {"hex": enc_route([(1, world["hop_slot"]), (2, hip.encode()), (1, s)]).hex(),
+                                 "hops": [[1, world["hop_slot"]], [2, {"hex": hip.encode().hex()}], [1, s]]}
+                elif form < 0.4:
+                    hops = [[1, s]]
                     route = r.choice((f"bp/{s}", f"backplane/{s}", f"1/{s}"))
                 elif form < 0.7:
                     route = {"segs": [[r.choice(("bp", "backplane", 1)), r.choice((s, str(s)))]]}
                 else:
-                    route = {"hex": enc_route([(1, s)]).hex(), "hops": hops}
+                    route = {"hex": enc_route([(1, s)]).hex(), "hops": [[1, s]]}
             else:
                 route = True
                 where = "target"
